@@ -100,6 +100,13 @@ def _task(task):
 
         for cfg in task['configs']:
             cfg = dict(cfg)
+            if cfg.get('bootstrap_factor_lookup') == 'per-level':
+                # one factor for every parent level of the STORED taxonomy (the natural way to write it);
+                # it names levels that drop_level / flatten remove
+                cfg['bootstrap_factor_lookup'] = dict({'None': 0.7}, **{lv: round(0.5 + 0.1 * k, 2)
+                                                                       for k, lv in enumerate(h[:-1])})
+            elif 'bootstrap_factor_lookup' in cfg:
+                cfg.pop('bootstrap_factor_lookup')
             try:
                 # ---- every droppable level ----
                 for lv in h[:-1]:
@@ -177,10 +184,11 @@ def tasks_for(tier, seed):
     quick = tier == 'quick'
     rng = np.random.default_rng([int(seed), 171])
     shapes = ['d3_bal', 'd3_chain', 'd2_bal', 'd2_single_child', 'd3_mid_single', 'd1_four', 'd2_top_single',
-              'd3_top_single', 'd3_reuse', 'd2_reuse']
+              'd3_top_single', 'd3_reuse', 'd2_reuse', 'd3_prefix']
     encs = ['dense', 'csr', 'csc']
     factors = dict(bootstrap_factor=[0.3, 0.6, 1.0], bootstrap_iteration=[1, 8], n_runners_up=[0, 3],
-                   chunk_size=[5, 18], n_processors=[1, 2], rng_seed=[11, 2024])
+                   chunk_size=[5, 18], n_processors=[1, 2], rng_seed=[11, 2024],
+                   bootstrap_factor_lookup=[None, 'per-level'])
     out = []
     for i, s in enumerate(shapes):
         cfgs = c01.covering_sample(factors, 2 if quick else 10, rng)
@@ -196,11 +204,11 @@ def tasks_for(tier, seed):
 
 def run(tier='quick', seed=0, jobs=1):
     seed = int(seed or 0)
-    bound = ("10 taxonomy shapes (depth 1-3, single-child parents, single top node, labels reused across levels)" +
+    bound = ("11 taxonomy shapes (depth 1-3, single-child parents, single top node, labels reused across levels, a level name that is a prefix of another)" +
              ("" if tier == 'quick' else " + 8 random trees") +
              ", 14 query cells x <= 27 genes, dense/csr/csc; every non-leaf level dropped in turn, flatten, one absent level; "
              "pairwise-covering sample of bootstrap_factor {0.3,0.6,1} x iterations {1,8} x runners-up {0,3} x chunk {5,18} x "
-             "workers {1,2} x rng_seed {11,2024}; records compared exactly except floats to 1e-9 (absent-level relation: bitwise)")
+             "workers {1,2} x rng_seed {11,2024} x {scalar factor, one factor per stored level}; records compared exactly except floats to 1e-9 (absent-level relation: bitwise)")
     row = fx.new_row(ENTRY, 'seeded-random', bound, [CL_DROP, CL_DROP_ANC, CL_FLAT, CL_FLAT_ANC, CL_ABSENT, CL_BOTH])
     try:
         rows = {c: row for c in (CL_DROP, CL_DROP_ANC, CL_FLAT, CL_FLAT_ANC, CL_ABSENT, CL_BOTH)}
